@@ -618,16 +618,26 @@ bool ReadEnumViewFromTextStream(View *view, Stream *stream) {
   if (!ReadToken(stream, &token)) return false;
   if (token.empty()) return false;
   if (::std::isdigit(token[0])) {
+    using Underlying =
+        typename ::std::underlying_type<typename View::ValueType>::type;
     ::std::uint64_t value;
     if (!DecodeInteger(token, &value)) return false;
-    // TODO(bolms): Fix the static_cast<ValueType> for signed ValueType.
-    // TODO(bolms): Should values between 2**63 and 2**64-1 actually be
-    // allowed in the text format when ValueType is signed?
-    return view->TryToWrite(static_cast<typename View::ValueType>(value));
+    // The number must be representable in the enum's underlying type;
+    // otherwise the cast below would wrap it to some other value.
+    const Underlying narrowed = static_cast<Underlying>(value);
+    if (narrowed < 0 || static_cast</**/ ::std::uint64_t>(narrowed) != value)
+      return false;
+    return view->TryToWrite(static_cast<typename View::ValueType>(narrowed));
   } else if (token[0] == '-') {
+    using Underlying =
+        typename ::std::underlying_type<typename View::ValueType>::type;
     ::std::int64_t value;
     if (!DecodeInteger(token, &value)) return false;
-    return view->TryToWrite(static_cast<typename View::ValueType>(value));
+    const Underlying narrowed = static_cast<Underlying>(value);
+    if ((value < 0 && !(narrowed < 0)) ||
+        static_cast</**/ ::std::int64_t>(narrowed) != value)
+      return false;
+    return view->TryToWrite(static_cast<typename View::ValueType>(narrowed));
   } else {
     typename View::ValueType value;
     if (!TryToGetEnumFromName(token.c_str(), &value)) return false;
